@@ -127,6 +127,7 @@ func (mq *MessageQueue) buildMessage(size uint64, buildMessageFn func(*Builder))
 		mq.builders = append(mq.builders, NewBuilder(ctx, topic))
 	}
 	builder := mq.builders[len(mq.builders)-1]
+	builder.allocated += size
 	buildMessageFn(builder)
 	return !builder.Empty()
 }
@@ -229,6 +230,10 @@ func (mq *MessageQueue) extractOutgoingMessage() (gsmsg.GraphSyncMessage, intern
 	}
 	mq.buildersLk.Unlock()
 	if builder.Empty() {
+		// nothing to send: give back whatever was reserved for this message
+		if builder.allocated > 0 {
+			_ = mq.allocator.ReleaseBlockMemory(mq.p, builder.allocated)
+		}
 		return gsmsg.GraphSyncMessage{}, internalMetadata{}, errEmptyMessage
 	}
 	return builder.build(mq.eventPublisher)
@@ -299,9 +304,18 @@ func (mq *MessageQueue) scrubResponses(requestIDs []graphsync.RequestID) uint64 
 	newBuilders := make([]*Builder, 0, len(mq.builders))
 	totalFreed := uint64(0)
 	for _, builder := range mq.builders {
-		totalFreed = builder.ScrubResponses(requestIDs)
+		freed := builder.ScrubResponses(requestIDs)
+		if freed > builder.allocated {
+			freed = builder.allocated
+		}
+		builder.allocated -= freed
+		totalFreed += freed
 		if !builder.Empty() {
 			newBuilders = append(newBuilders, builder)
+		} else {
+			// the whole message is discarded: release everything reserved for it
+			totalFreed += builder.allocated
+			builder.allocated = 0
 		}
 	}
 	mq.builders = newBuilders
